@@ -127,7 +127,11 @@ def drive_znx(rec, quick):
                 continue
             for mdiv in (1.0, 2.0, 1024.0, 65536.0 * 65536.0, 3.0):
                 A, R = Buf(8 * nn, off=rng.choice([0, 8, 24])), Buf(8 * nn, fill=0xEE)
-                a = np.array([rng.choice([0.0, 1.0, -1.0, float(rng.randrange(-(1 << 52), 1 << 52)), rng.random() * 1e6]) for _ in range(nn)])
+                # ordinary magnitudes, signed zero, and operands whose quotient is subnormal or whose exponent is near the top (the
+                # division by a power of two is exact there too, by IEEE-754 gradual underflow, as long as no bit is shifted out)
+                a = np.array([rng.choice([0.0, -0.0, 1.0, -1.0, float(rng.randrange(-(1 << 52), 1 << 52)), rng.random() * 1e6,
+                                          float(np.ldexp(1.0 + rng.randrange(1 << 20) / (1 << 20), rng.randrange(-1022, -990))) * rng.choice([1, -1]),
+                                          float(np.ldexp(1.5, rng.randrange(990, 1023)))]) for _ in range(nn)])
                 A.f64[:] = a
                 fn = "rnx_divide_by_m_" + variant
                 if not rec.progress("%s n=%d m=%g" % (fn, nn, mdiv)):
@@ -137,7 +141,8 @@ def drive_znx(rec, quick):
                 exact = a / mdiv                      # exact for powers of two; within 1 ulp otherwise
                 if not (A.canaries_ok() and R.canaries_ok() and np.array_equal(A.f64, a)):
                     rec.violation("%s n=%d: source modified or write outside the output" % (fn, nn), {})
-                elif (mdiv != 3.0 and not np.array_equal(R.f64, exact)) or (mdiv == 3.0 and not np.allclose(R.f64, exact, rtol=4e-16, atol=0)):
+                elif (mdiv != 3.0 and not np.array_equal(R.f64.view(np.uint64), exact.view(np.uint64))) or \
+                        (mdiv == 3.0 and not np.allclose(R.f64, exact, rtol=4e-16, atol=5e-324)):
                     rec.violation("%s n=%d m=%g: not the quotient (exact for a power of two, a few ulp otherwise)" % (fn, nn, mdiv), {})
     rec.data["events"] = events
 
